@@ -547,6 +547,10 @@ def run(ctx):
             for e in kf.get(status, []):
                 if isinstance(e, dict) and e.get("property") == "C13" and e.get("witness"):
                     listed[os.path.basename(e["witness"])] = (status, e["key"])
+                elif isinstance(e, str) and "property=C13 " in e:
+                    m = re.search(r"\(key (.*), witness findings/C13/([^)]+)\)\s*$", e)
+                    if m:
+                        listed.setdefault(m.group(2), (status, m.group(1)))
         wit_seen = []
         wdir = os.path.join(core.VERIF, "findings", "C13")
         for wn in sorted(os.listdir(wdir)) if os.path.isdir(wdir) else []:
